@@ -291,8 +291,24 @@ func (s *Seq) repairScenario(r *simrt.Rand, extra map[string]int) *repairFaults 
 		if len(names) > 0 {
 			f.partial = names[r.Intn(len(names))]
 			l := lids[r.Intn(len(lids))]
-			doc.removeEntry(idOf[s.M.UUID[l]], f.partial, true)
-			s.stat("fault:rm-index-entry-partial")
+			if len(lids) >= 2 && r.Bool() {
+				// same size, but one object twice and another one not at all: the entry of
+				// lid l takes the object id of another object
+				fi, _ := doc.fieldIndexes()[f.partial].(map[string]interface{})
+				idx, _ := fi["index"].([]interface{})
+				other := idOf[s.M.UUID[lids[(indexOf(lids, l)+1)%len(lids)]]]
+				for _, t := range idx {
+					if tu, ok := t.([]interface{}); ok && len(tu) == 2 && fmt.Sprint(tu[1]) == idOf[s.M.UUID[l]] {
+						tu[1] = json.Number(other)
+						break
+					}
+				}
+				f.partial += " (duplicate id)"
+				s.stat("fault:dup-index-entry-partial")
+			} else {
+				doc.removeEntry(idOf[s.M.UUID[l]], f.partial, true)
+				s.stat("fault:rm-index-entry-partial")
+			}
 		}
 	}
 	for _, l := range f.removedFiles {
@@ -390,7 +406,7 @@ func (s *Seq) repairScenario(r *simrt.Rand, extra map[string]int) *repairFaults 
 			cerr = db.Control()
 		}
 		if lerr == nil && cerr == nil {
-			s.fail("repair", "internal-inconsistency-unreported", "one tuple was removed from the index of %s only; neither the first load nor Control reports anything", f.partial)
+			s.fail("repair", "internal-inconsistency-unreported", "the index of field %s alone was made inconsistent (an entry removed, or one object id twice and another not at all); neither the first load nor Control reports anything", f.partial)
 		}
 		s.stat("probe:partial-index-damage-reported")
 		return f
@@ -470,3 +486,12 @@ func (s *Seq) repairAndVerify(db *sod.DB, files *model.Model, before map[string]
 }
 
 var _ = shapes.Derive
+
+func indexOf(l []int, x int) int {
+	for i, v := range l {
+		if v == x {
+			return i
+		}
+	}
+	return 0
+}
